@@ -19,10 +19,14 @@ def harness(ctx, cfg):
     ctx.allow_realise = cfg.get("max_label") is not None
     IDMAX, SEGMAX = cfg.get("idmax", 4), cfg.get("segmax", 3)
     via_builder = cfg.get("via_builder", False)
-    seg = SArr.fresh("c", (T, P), np.int64)
+    dt = np.dtype(cfg.get("dtype", "int64"))
+    IDLO = cfg.get("idlo", 0)
+    seg = SArr.fresh("c", (T, P), dt)
     inp = seg.c.copy()
     for x in inp.flat:
         ctx.add(x >= 0)
+        if dt.itemsize < 8:
+            ctx.add(x <= int(np.iinfo(dt).max))  # a cell holds a value of its dtype
         if cfg.get("max_label") is not None:
             # bounded-label run: lets code that leaves the modelled numpy API be followed by realisation
             ctx.add(x <= cfg["max_label"])
@@ -31,7 +35,7 @@ def harness(ctx, cfg):
     tm = [z3.Int(f"tm{i}") for i in range(M)]
     n = 1 + ctx.choose(M, "n_nodes")
     for i in range(n):
-        ctx.add(And(0 <= nid[i], nid[i] <= IDMAX, 1 <= sid[i], sid[i] <= SEGMAX, 0 <= tm[i], tm[i] < T))
+        ctx.add(And(IDLO <= nid[i], nid[i] <= IDLO + IDMAX, 1 <= sid[i], sid[i] <= SEGMAX, 0 <= tm[i], tm[i] < T))
     if n > 1:
         ctx.add(z3.Distinct(nid[:n]))
     for i, j in itertools.combinations(range(n), 2):
@@ -48,6 +52,7 @@ def harness(ctx, cfg):
     ctx.input("times", ct)
     ctx.input("cells", [[inp[t, p] for p in range(P)] for t in range(T)])
     ctx.input("via_builder", via_builder)
+    ctx.input("dtype", dt.name)
     identity = cn == cs
     ctx.env.update(identity_mapping=identity, via_builder=via_builder)
     g = nx.DiGraph()
@@ -107,7 +112,7 @@ class _Builder(tb.TracksBuilder):
 def replay(f):
     inp = f["inputs"]
     cn, cs, ct = inp["node_ids"], inp["seg_ids"], inp["times"]
-    arr = np.array(inp["cells"], dtype=np.int64)
+    arr = np.array(inp["cells"], dtype=np.dtype(inp.get("dtype", "int64")))
     before = arr.copy()
     g = nx.DiGraph()
     g.add_nodes_from(cn)
@@ -139,7 +144,7 @@ def replay(f):
         return sorted(g.nodes) != sorted(c + want_shift for c in cn), detail
     if ob == "C13.pixel_exact":
         use = 0 if (inp["via_builder"] and cn == cs) else shift
-        want = np.zeros_like(before)
+        want = np.zeros(before.shape, dtype=np.int64)
         for i in range(len(cn)):
             want[ct[i]][before[ct[i]] == cs[i]] = cn[i] + use
         return (not np.array_equal(np.asarray(out, dtype=np.int64), want)), detail + f" want={want.tolist()}"
